@@ -429,12 +429,15 @@ class SyncWorld(World):
         srv = self.server
 
         def connect(sid, environ):
+            w.last_connect_sid = sid
             slot = w._slot_of(sid)
             w.socks[slot] = srv.sockets.get(sid)
             w._ev(slot, 'connect')
             outcome, hsend = w.connect_plan.pop(0) if w.connect_plan else ('accept', False)
             if hsend:
                 w._app_send(slot)
+            if isinstance(outcome, tuple):      # ('ret', value): return exactly that value
+                return outcome[1]
             if outcome == 'reject':
                 w.orphans.add(slot)
                 return False
@@ -548,6 +551,14 @@ class SyncWorld(World):
             return ['?undecodable']
         if text == '':
             return []
+        if text.startswith('___eio['):
+            # JSONP wrapper (its exact form is C19's business): evaluate the string literal
+            from . import jslit
+            pr = jslit.jsonp_parse(text)
+            try:
+                text = jslit.js_string_eval(pr[1]) if pr else '?jsonp'
+            except ValueError:
+                return ['?jsonp-literal']
         slot = r.slot
         if slot is None:
             # open request: the slot is the one created during this request
@@ -651,6 +662,9 @@ class SyncWorld(World):
     def app_send(self, slot):
         return self.api(self._app_send, slot)
 
+    def api_send_payload(self, slot, data):
+        return self.api(lambda: self.server.send(self.sids[slot], data))
+
     def app_disconnect_with_id(self, slot, cid):
         def call():
             self.server.disconnect(self.sids.get(slot, 'unknown-sid'))
@@ -727,12 +741,15 @@ class AsyncWorld(World):
         srv = self.server
 
         async def connect(sid, environ):
+            w.last_connect_sid = sid
             slot = w._slot_of(sid)
             w.socks[slot] = srv.sockets.get(sid)
             w._ev(slot, 'connect')
             outcome, hsend = w.connect_plan.pop(0) if w.connect_plan else ('accept', False)
             if hsend:
                 await w._app_send(slot)
+            if isinstance(outcome, tuple):      # ('ret', value): return exactly that value
+                return outcome[1]
             if outcome == 'reject':
                 w.orphans.add(slot)
                 return False
@@ -940,6 +957,11 @@ class AsyncWorld(World):
 
     def app_send(self, slot):
         return self.api(self._app_send, slot)
+
+    def api_send_payload(self, slot, data):
+        async def call():
+            await self.server.send(self.sids[slot], data)
+        return self.api(call)
 
     def app_disconnect_with_id(self, slot, cid):
         async def call():
